@@ -177,7 +177,7 @@ CLAIMS["C36"] = {
             "released decision is non-trivial (every scheduled tick releases something new).",
     "note": "NOT covered: the keyed hooks (KeyedStreamHook, KeyedSingletonHook, KeyedStreamOrderHook, KeyedMergeOrderedHook, PartiallyOrderedStreamHook and "
             "their TopLevel variants) own FxHashMaps (hashbrown, outside CBMC's reach: a KeyedStreamHook harness with ONE concrete key and two queued items "
-            "exceeded 1500 s); the scheduler loop around run_hooks and SimBuilder wiring; the "
+            "exceeded 1500 s, and with a scripted driver over a contract double of FxHashMap still 600 s, so the cost is the hook's own collection code); the scheduler loop around run_hooks and SimBuilder wiring; the "
             "log-formatting branches (log_writer is None). The output channel is a CONTRACT DOUBLE of dfir_rs::util::unsync::mpsc (try_send appends and "
             "returns Ok) because the real channel is outside CBMC's reach (C16). Bounds: queue length <= 3 (<= 2 per input for merges), <= 3 hooks; "
             "quick covers MergeOrderedHook with two non-empty inputs by 8 scripted-driver harnesses enumerating every interleaving decision for 2 + 2 items; the "
